@@ -73,6 +73,20 @@ class Poly:
                 rest[k] = v
         return Poly(co), Poly(rest)
 
+    def coef_of_name(self, name):
+        """coef_of for an atom given by its key string."""
+        co, rest = {}, {}
+        for k, v in self.d.items():
+            exps = dict(k)
+            if name in exps:
+                if exps[name] != 1:
+                    raise AnalysisError('E7', 'not affine in the variable')
+                kk = tuple(sorted((a, e) for a, e in k if a != name))
+                co[kk] = co.get(kk, 0) + v
+            else:
+                rest[k] = v
+        return Poly(co), Poly(rest)
+
     def show(self):
         if not self.d:
             return '0'
